@@ -14,8 +14,10 @@ fn main() {
     }
     // child modes (crash engine etc.) are dispatched before anything else
     if args[0].starts_with("--child-") {
+        vh::util::protect_environment();
         exit(vh::props::child_main(&args));
     }
+    vh::util::protect_environment();
     runner::install_panic_hook();
     let mut tier = match std::env::var("VERIF_TIER").ok().as_deref() {
         Some("thorough") => Tier::Thorough,
